@@ -2,7 +2,7 @@
 import ast
 
 from .. import util
-from ..interp import Interp, Path, exc_value, show, strip_sites, subterms
+from ..interp import alpha, Interp, Path, exc_value, show, strip_sites, subterms
 from ..report import Undecided
 
 SELF = ("sym", "self")
@@ -462,7 +462,7 @@ def aggregation(chk, cls, active, released, roles):
                     return ("attr", swap(t[1]), "allocation" if t[2] == "utilisation" else "utilisation")
                 return tuple(swap(x) for x in t)
             return t
-        if swap(terms["utilisation"]) != terms["allocation"]:
+        if alpha(swap(terms["utilisation"])) != alpha(terms["allocation"]):
             chk.bad(rule, cls.qual, "utilisation and allocation are not the same aggregate under the attribute swap", node=cls.node, stmt="sibling-symmetry")
 
 
